@@ -33,15 +33,18 @@ struct Delivery {
   int cls, type;
   std::string bytes;
   bool maybe = false;  // the statement does not decide (malformed in a way it does not list)
+  long start_n = 0;    // number of the byte pair that carried the packet's start code
 };
 
 // ---- reference reassembler ------------------------------------------------
-struct RefPacket { bool active = false; std::string bytes; unsigned sum = 0; bool saw_pad = false; bool poisoned = false; bool overlong = false; };
+struct RefPacket { bool active = false; std::string bytes; unsigned sum = 0; bool saw_pad = false; bool poisoned = false; bool overlong = false; long start_n = 0; };
 struct RefDemux {
   std::map<int, RefPacket> pk;  // key = cls*256+type
   int cur = -1;
+  long n = 0;  // byte pairs seen so far (the current pair's number while pair() runs and until the next one)
   std::vector<Delivery> out;
   void pair(int b0, int b1) {
+    n++;
     bool par_ok = (__builtin_popcount(b0 & 0xFF) & 1) && (__builtin_popcount(b1 & 0xFF) & 1);
     int c1 = b0 & 0x7F, c2 = b1 & 0x7F;
     if (!par_ok) {
@@ -52,7 +55,7 @@ struct RefDemux {
     if (c1 == 0) return;  // stuffing / idle
     if (c1 <= 0x0E) {
       int key = ((c1 - 1) >> 1) * 256 + c2;
-      if (c1 & 1) { RefPacket p; p.active = true; p.sum = (unsigned)(c1 + c2); pk[key] = p; cur = key; }
+      if (c1 & 1) { RefPacket p; p.active = true; p.sum = (unsigned)(c1 + c2); p.start_n = n; pk[key] = p; cur = key; }
       else { cur = pk[key].active ? key : -1; }
       return;
     }
@@ -61,7 +64,7 @@ struct RefDemux {
       RefPacket& p = pk[cur];
       p.sum += (unsigned)(c1 + c2);
       if ((p.sum & 0x7F) == 0 && !p.bytes.empty() && !p.overlong) {
-        Delivery d; d.cls = cur >> 8; d.type = cur & 255; d.bytes = p.bytes; d.maybe = p.poisoned;
+        Delivery d; d.cls = cur >> 8; d.type = cur & 255; d.bytes = p.bytes; d.maybe = p.poisoned; d.start_n = p.start_n;
         out.push_back(d);
       }
       pk[cur] = RefPacket();
@@ -120,7 +123,7 @@ static std::string strfu(const std::string& s) {  // documented: leading blanks 
   return r;
 }
 
-struct ProgEvent { int future; std::string title; int month, day, hour, min, lh, lm; };
+struct ProgEvent { int future; std::string title; int month, day, hour, min, lh, lm; long n; /* number of the byte pair that raised it */ };
 struct NetEvent { std::string name, call; };
 
 struct C09 : World {
@@ -130,6 +133,7 @@ struct C09 : World {
   Plan generate(uint64_t seed, const std::string& tier) override {
     Plan p; p.world = name(); p.seed = seed;
     Rng r(seed, "plan");
+    if (r.chance(1, 4)) { generate_guide(p, r); return p; }
     int K = 1 + (int)r.below(4);
     p.knobs["sched_seed"] = (int64_t)(r.next() >> 1);
     p.knobs["policy"] = (int64_t)r.below(3);
@@ -174,7 +178,86 @@ struct C09 : World {
     return p;
   }
 
+  // "Programme guide" shape: what a real XDS encoder transmits.  A fixed set of items of the CURRENT class
+  // (programme id number, name, length, rating, a description line), of the FUTURE class (id number, name,
+  // length) and of the CHANNEL class is repeated round after round with identical content; optionally a
+  // programme boundary in the middle where the contents change.  Three multiplex shapes: one carousel
+  // (items strictly one after the other), one carousel per class (current and future class packets
+  // interleaved pair by pair by the scheduler), one source per item.  Caption and idle sources as usual.
+  // A "pkt" op carries its own (class,type) in a[4],a[5] here.
+  struct GItem { int cls, type, len; int64_t ps; };
+  void generate_guide(Plan& p, Rng& r) {
+    p.knobs["guide"] = 1;
+    p.knobs["sched_seed"] = (int64_t)(r.next() >> 1);
+    p.knobs["policy"] = (int64_t)r.below(3);
+    p.knobs["pparam"] = (p.knobs["policy"] == 1) ? 50 + (int64_t)r.below(45) : (int64_t)r.below(4);
+    std::vector<GItem> items;
+    auto add = [&](int cls, int type) {
+      GItem g; g.cls = cls; g.type = type;
+      g.len = type == 3 ? 2 + (int)r.below(31) : 1 + (int)r.below(12);
+      g.ps = (int64_t)r.below(1000);
+      items.push_back(g);
+    };
+    bool cpin = r.chance(3, 4);
+    if (cpin) add(0, 1);
+    if (!cpin || r.chance(5, 6)) add(0, 3);
+    if (r.chance(1, 2)) add(0, 2);
+    if (r.chance(1, 3)) add(0, 5);
+    if (r.chance(1, 4)) add(0, 0x10 + (int)r.below(8));
+    bool fpin = r.chance(3, 4);
+    if (fpin) add(1, 1);
+    if (!fpin || r.chance(2, 3)) add(1, 3);
+    if (r.chance(1, 4)) add(1, 2);
+    if (r.chance(1, 4)) add(2, 1);
+    if (r.chance(1, 6)) add(2, 2);
+    for (size_t i = items.size(); i > 1; i--) std::swap(items[i - 1], items[r.below(i)]);  // transmission order
+    int shape = (int)r.below(3);
+    p.knobs["guide_shape"] = shape;
+    int K = 0;
+    std::vector<int> task_of(items.size());
+    if (shape == 0) { K = 1; for (auto& t : task_of) t = 0; }
+    else if (shape == 1) {
+      int cls_task[3] = {-1, -1, -1};
+      for (size_t i = 0; i < items.size(); i++) { int& ct = cls_task[items[i].cls]; if (ct < 0) ct = K++; task_of[i] = ct; }
+    } else { for (size_t i = 0; i < items.size(); i++) task_of[i] = K++; }
+    p.knobs["sources"] = K;
+    bool faults = r.chance(1, 4);
+    p.knobs["faults_enabled"] = faults ? (1 << F_N) - 1 : 1;
+    bool reshuffle = r.chance(1, 4);  // the order of the items changes from round to round
+    int epochs = r.chance(1, 2) ? 2 : 1;
+    p.knobs["guide_epochs"] = epochs;
+    for (int e = 0; e < epochs; e++) {
+      if (e > 0)  // programme boundary: most items get new content
+        for (auto& g : items) if (r.chance(3, 4)) { g.ps += 1 + (int64_t)r.below(5); if (g.type == 3) g.len = 2 + (int)r.below(31); }
+      int rounds = 5 + (int)r.below(4);
+      for (int k = 0; k < rounds; k++) {
+        std::vector<size_t> order(items.size());
+        for (size_t i = 0; i < order.size(); i++) order[i] = i;
+        if (reshuffle) for (size_t i = order.size(); i > 1; i--) std::swap(order[i - 1], order[r.below(i)]);
+        for (size_t i : order) {
+          const GItem& g = items[i];
+          int f = F_NONE;
+          if (faults && r.chance(1, 12)) f = 1 + (int)r.below(F_N - 1);
+          Op o; o.task = task_of[i]; o.kind = "pkt";
+          o.a = {g.len, g.ps, f, (int64_t)r.below(40), g.cls, g.type};
+          p.ops.push_back(o);
+        }
+      }
+    }
+    if (r.chance(2, 3)) {
+      int n = 1 + (int)r.below(12);
+      for (int i = 0; i < n; i++) { Op o; o.task = K; o.kind = "cap"; o.a = {1 + (int64_t)r.below(6), (int64_t)r.below(1000)}; p.ops.push_back(o); }
+    }
+    if (r.chance(1, 2)) { Op o; o.task = K + 1; o.kind = "idle"; o.a = {1 + (int64_t)r.below(8)}; p.ops.push_back(o); }
+  }
+
   // ------------------------------------------------------------------ run --
+  // Announcement ("liveness") model of one programme class, see announce_update()/announce_check().
+  struct LiveItem {
+    bool have_raw = false; std::string raw; int cnt = 0;  // deliveries at or after the class's last change point
+    bool have_dec = false; std::string dec; long run_start = 0;  // current run of equal DECODED content
+    long uncertain_since = 0;  // first packet of this type since the last certain one that the decoder may or may not have seen
+  };
   struct St {
     RunCtx* ctx; Sched* sched;
     vbi_xds_demux* xd = nullptr;
@@ -190,6 +273,11 @@ struct C09 : World {
     // decoder-side model: history of certain/maybe deliveries per (class,type)
     std::map<int, std::vector<Delivery>> hist;
     int interruptions = 0;
+    // announcement model (classes 0 = current, 1 = future)
+    LiveItem live[2][0x18];
+    long disturb_n = 0;           // number of the last byte pair the announcement clause does not reason about
+    long last_cp_n[2] = {0, 0};   // pair number of the class's last change point
+    std::vector<int> pending;     // cls*256+type delivered by the current pair, checked after vbi_decode returned
   };
   static St* g;
 
@@ -215,6 +303,7 @@ struct C09 : World {
       vbi_program_info* pi = ev->ev.prog_info;
       ProgEvent e; e.future = pi->future; e.title = (const char*)pi->title;
       e.month = pi->month; e.day = pi->day; e.hour = pi->hour; e.min = pi->min; e.lh = pi->length_hour; e.lm = pi->length_min;
+      e.n = g->ref.n;
       g->prog_events.push_back(e);
       g->ctx->log("ev PROG_INFO future=%d title='%s' pin=%d/%d %d:%d len=%d:%d", e.future, e.title.c_str(), e.month, e.day, e.hour, e.min, e.lh, e.lm);
       check_prog_event(e);
@@ -223,6 +312,9 @@ struct C09 : World {
       g->net_events.push_back(e);
       g->ctx->log("ev NETWORK name='%s' call='%s'", e.name.c_str(), e.call.c_str());
       check_net_event(e);
+      // A newly identified network may be a channel switch: the decoder then documentedly forgets the
+      // programme information and every packet in flight.
+      announce_disturb();
     }
   }
 
@@ -292,15 +384,110 @@ struct C09 : World {
     }
   }
 
+  // ---- "announced after the documented repeat" as a bounded-liveness clause ----------------------------
+  // Statement: "the service decoder's programme/network information (title, length, rating ...) equals the
+  // decoded content of the delivered packets, announced after the documented repeat."  The documented
+  // repeat is the second identical reception; the statement does not say how soon after it, and a change of
+  // the programme id number legitimately makes the decoder start over.  What it does promise is that the
+  // announcement comes: information that is stored but never announced although the identical packets keep
+  // repeating is a violation.  The clause, for T = programme id number (type 1) and programme name (type 3)
+  // of class C (current, future):
+  //   A "change point" of class C is a delivered class-C packet whose bytes differ from the previous packet
+  //   of the same type (or which has none).  If packet (C,T) with valid content X has been delivered
+  //   ANNOUNCE_BY times at or after the last change point of class C - i.e. nothing of the class changed
+  //   while X was received ANNOUNCE_BY times - and nothing "disturbed" the stream in that time, then a
+  //   PROG_INFO event of class C carrying X must have been raised since X was first received (start of the
+  //   current run of packets decoding to X; an announcement made earlier in that run is accepted, the
+  //   statement does not ask for a re-announcement when another item changes).
+  // ANNOUNCE_BY = 4 (first reception + 3 unchanged repeats): one more than the second-occurrence rule needs
+  // when an id-number change restarts the confirmation in between; deliberately not tight.
+  // Leniencies: any pair of a packet with an injected fault, of an over-long or empty packet, a parity
+  // error, an undetermined ("maybe") delivery and a NETWORK event (possible channel switch, which
+  // documentedly discards programme info and packets in flight) is a disturbance: all counts restart and
+  // packets that were open at that moment do not count.  Other items (length, rating ...) are not subject
+  // to the clause: for them content equal to "nothing known" exists, for which nothing need be announced.
+  static constexpr int ANNOUNCE_BY = 4;
+  static void announce_disturb(long upto = -1) {
+    St& s = *g;
+    if (upto < s.ref.n) upto = s.ref.n;
+    if (upto > s.disturb_n) s.disturb_n = upto;
+    for (auto& cl : s.live) for (auto& it : cl) { it.have_raw = false; it.cnt = 0; }
+    s.ctx->count("live_disturbances");
+  }
+  // decoded value of the two items under the clause, from EIA-608: id number = minute 0-59, hour 0-23,
+  // day 1-31, month 1-12 in the low bits of four bytes; name = 2-32 characters.  "" = not valid / nothing.
+  static std::string announce_decode(int type, const std::string& b) {
+    if (type == 1) {
+      if (b.size() != 4) return "";
+      int mi = b[0] & 63, h = b[1] & 31, d = b[2] & 31, mo = b[3] & 15;
+      if (mi > 59 || h > 23 || d < 1 || d > 31 || mo < 1 || mo > 12) return "";
+      char buf[32]; snprintf(buf, sizeof buf, "%d/%d %d:%d", mo - 1, d - 1, h, mi);
+      return buf;
+    }
+    if (type == 3) return b.size() >= 2 ? strfu(b) : "";
+    return "";
+  }
+  static void announce_update(const Delivery& d) {  // before the pair reaches the decoder
+    St& s = *g;
+    if (d.cls > 1 || !decoder_knows(d.cls, d.type)) return;
+    LiveItem& li = s.live[d.cls][d.type];
+    if (d.maybe || d.start_n <= s.disturb_n) {
+      // undetermined, or in flight during a disturbance: the decoder may or may not have it.  Counts
+      // restart, and the run of the item is taken to begin no later than here whatever comes next.
+      if (!li.uncertain_since) li.uncertain_since = s.ref.n;
+      if (d.maybe) announce_disturb();
+      else for (auto& it : s.live[d.cls]) { it.have_raw = false; it.cnt = 0; }
+      return;
+    }
+    if (li.have_raw && li.raw == d.bytes) li.cnt++;
+    else {  // change point of the class
+      for (auto& it : s.live[d.cls]) it.cnt = 0;
+      li.have_raw = true; li.raw = d.bytes; li.cnt = 1;
+      s.last_cp_n[d.cls] = s.ref.n;
+    }
+    std::string dec = announce_decode(d.type, d.bytes);
+    if (!dec.empty()) {
+      if (!(li.have_dec && li.dec == dec)) { li.have_dec = true; li.dec = dec; li.run_start = li.uncertain_since ? li.uncertain_since : s.ref.n; }
+      li.uncertain_since = 0;
+    }
+    if (!dec.empty() && li.cnt >= ANNOUNCE_BY) s.pending.push_back(d.cls * 256 + d.type);
+  }
+  static void announce_check() {  // after vbi_decode() returned for the pair
+    St& s = *g;
+    for (int key : s.pending) {
+      int cls = key >> 8, type = key & 255;
+      const LiveItem& li = s.live[cls][type];
+      if (li.cnt < ANNOUNCE_BY || !li.have_dec) continue;  // a disturbance arrived with this very pair
+      s.ctx->count("live_checks");
+      if (s.last_cp_n[1 - cls] >= li.run_start) s.ctx->count("live_checks_other_class_renewed");
+      bool ok = false;
+      for (size_t i = s.prog_events.size(); i-- > 0 && !ok;) {
+        const ProgEvent& e = s.prog_events[i];
+        if (e.n < li.run_start) break;
+        if (e.future != cls) continue;
+        if (type == 3) ok = e.title == li.dec;
+        else { char buf[32]; snprintf(buf, sizeof buf, "%d/%d %d:%d", e.month, e.day, e.hour, e.min); ok = li.dec == buf; }
+      }
+      if (!ok) {
+        s.ctx->fail("oracle:xds-proginfo-never", "class %d %s '%s' received %d times with nothing of the class changing and no fault, but no PROG_INFO event has announced it since it was first received (pair %ld)",
+                    cls, type == 3 ? "programme name" : "programme id number (month-1/day-1 h:m)", li.dec.c_str(), li.cnt, li.run_start);
+        break;
+      }
+    }
+    s.pending.clear();
+  }
+
   // one byte pair on field 2 -> both systems and the reference
   static void deliver(int b0, int b1) {
     St& s = *g;
     s.ctx->log("pair %02x %02x", b0, b1);
     size_t ref_before = s.ref.out.size();
     s.ref.pair(b0, b1);
+    if (!((__builtin_popcount(b0 & 0xFF) & 1) && (__builtin_popcount(b1 & 0xFF) & 1))) announce_disturb();
     for (size_t i = ref_before; i < s.ref.out.size(); i++) {
       const Delivery& d = s.ref.out[i];
       if (decoder_knows(d.cls, d.type)) s.hist[d.cls * 256 + d.type].push_back(d);
+      announce_update(d);
     }
     uint8_t buf[2] = {(uint8_t)b0, (uint8_t)b1};
     budget_begin("vbi_xds_demux_feed", 100000);
@@ -314,6 +501,7 @@ struct C09 : World {
     budget_begin("vbi_decode", 3000000);
     { SutScope ss; vbi_decode(s.dec, sl, 2, s.ts); }
     budget_end();
+    if (!s.ctx->failed) announce_check();
     // compare demux deliveries with the reference, in order; "maybe" deliveries may be absent
     compare(false);
   }
@@ -365,7 +553,7 @@ struct C09 : World {
       s.ctx->fail("oracle:xds-lost", "valid packet %d/0x%02x [%s] was not delivered", miss->cls, miss->type, hex(miss->bytes).c_str());
   }
 
-  struct Src { int cls = 0, type = 1; bool open = false; };
+  struct Src { int cls = 0, type = 1; bool open = false; bool dirty = false; /* current packet carries a fault, is over-long or empty */ };
 
   void run(const Plan& plan, RunCtx& ctx) override {
     static bool warmed = false;
@@ -397,7 +585,10 @@ struct C09 : World {
     auto send = [&](int t, int b0, int b1, bool is_start) {
       if (ctx.failed) return;
       Src& s = src[t];
-      if (t < K && s.open && !is_start && st.last_sender != t) {
+      bool dirty = t < K && s.dirty;
+      bool cont = t < K && s.open && !is_start && st.last_sender != t;
+      if (dirty) announce_disturb(st.ref.n + (cont ? 2 : 1));  // this pair and the inserted continue code
+      if (cont) {
         int c1 = s.cls * 2 + 2;  // continue code of the class
         deliver(tx::odd_parity((uint8_t)c1), tx::odd_parity((uint8_t)s.type));
         st.interruptions++;
@@ -407,6 +598,7 @@ struct C09 : World {
         deliver(tx::odd_parity(0x15), tx::odd_parity(0x20));  // caption resumes with its own control code
       }
       deliver(b0, b1);
+      if (dirty && !ctx.failed) announce_disturb();
       st.last_sender = t;
       sched.yield();
     };
@@ -417,8 +609,12 @@ struct C09 : World {
           if (ctx.failed) return;
           if (op->kind == "pkt" && t < K) {
             Src& s = src[t];
+            if (op->a.size() >= 6) {  // guide shape: the packet names its own class and type
+              s.cls = (int)(((op->arg(4) % 7) + 7) % 7); s.type = (int)(((op->arg(5) % 0x60) + 0x60) % 0x60);
+            }
             int len = (int)(op->arg(0) % 41); if (len < 0) len = -len;
             int f = (int)(((op->arg(2) % F_N) + F_N) % F_N);
+            s.dirty = f != F_NONE || len > 32 || len < 1;
             int fa = (int)op->arg(3);
             std::string pl = payload(s.cls, s.type, len, (uint64_t)op->arg(1));
             if (len > 32 && (int)pl.size() < len) pl.append((size_t)len - pl.size(), 'Z');
@@ -457,6 +653,7 @@ struct C09 : World {
               send(t, p0, p1, false);
             }
             s.open = false;
+            s.dirty = false;
           } else if (op->kind == "cap") {
             Rng r((uint64_t)op->arg(1), "cap");
             int n = (int)(op->arg(0) % 12);
@@ -491,6 +688,7 @@ struct C09 : World {
     ctx.count("ref_deliveries", (int64_t)certain);
     ctx.count("prog_info_events", (int64_t)st.prog_events.size());
     ctx.count("network_events", (int64_t)st.net_events.size());
+    if (plan.knob("guide")) { ctx.count("guide_runs"); if (plan.knob("guide_epochs") > 1) ctx.count("guide_runs_programme_boundary"); }
     ctx.nontrivial = certain >= 2 && st.interruptions >= 1;
     ctx.sim_seconds = st.ts - 1000.0;
     g = nullptr;
